@@ -280,11 +280,11 @@ func c04Child() {
 		only = os.Args[3]
 	}
 	env := c04NewEnv()
-	big := map[string]bool{"open-paren": true, "paren-balanced": true, "minus": true, "dot-chain": true, "map-balanced": true, "binary-chain": true, "invalid-utf8": true}
+	big := map[string]bool{"open-paren": true, "paren-balanced": true, "minus": true, "dot-chain": true, "binary-chain": true, "invalid-utf8": true}
 	bombs := c04Bombs(limit)
 	if !full {
 		// quick tier: 64 KiB for the constructs that recurse, 6 KiB for the rest (error formatting is quadratic in the line length)
-		small := c04Bombs(6 * 1024)
+		small := c04Bombs(4 * 1024)
 		for i := range bombs {
 			if !big[bombs[i].Name] {
 				bombs[i] = small[i]
@@ -403,7 +403,7 @@ func runC04(c *Ctx) {
 		c04Replay(c, h)
 		return
 	}
-	nMut, nRand, nGen := 1500, 600, 250
+	nMut, nRand, nGen := 1000, 450, 200
 	if c.Thorough() {
 		nMut, nRand, nGen = 60000, 20000, 5000
 	}
@@ -434,12 +434,16 @@ func runC04(c *Ctx) {
 	for _, g := range gen {
 		seeds = append(seeds, g.Src)
 	}
+	handEnvs := envs
+	if !c.Thorough() {
+		handEnvs = envs[:6]
+	}
 	for _, src := range c04Sources {
 		src := src
 		jobs <- func() { h.parseAndEval(src, envs) }
 		for _, o := range baseOpts {
 			o := o
-			jobs <- func() { h.compileAndRun(src, o, envs) }
+			jobs <- func() { h.compileAndRun(src, o, handEnvs) }
 		}
 	}
 	r.Count("stream:hand-written", len(c04Sources))
@@ -459,7 +463,7 @@ func runC04(c *Ctx) {
 		// quick tier: all option subsets on one source, every 4th (staggered) on the others
 		for si, src := range matrixSrc {
 			for oi, o := range all {
-				if si != 1 && oi%4 != si {
+				if si != 1 && oi%8 != si {
 					continue
 				}
 				src, o := src, o
